@@ -501,3 +501,22 @@ PLANS["C05"] = dict(
     assumptions=["a hang is detected by the 30 s watchdog of the harness", "fatal runtime errors (out of memory, stack exhaustion) kill the harness and are reported as a crash violation"],
     trusted_base=["TLC 2026.09.04", "CommunityModules Json/IOUtils", "runtime.MemStats", "vectortile.Tile.Marshal to wrap command words into a tile"],
 )
+
+# ---- C15 -------------------------------------------------------------------------------------------
+
+
+def run_c15(ctx):
+    ctx.mc("ProjectMC", "ProjectMC.cfg", workers=8, note="MapVertices visits every vertex once, in order, preserving kind and nesting on the bounded shape set")
+    shards = ctx.gen("project")
+    ctx.validate("Project_Trace", shards)
+
+
+PLANS["C15"] = dict(
+    run=run_c15, signature=sig_default,
+    technique="TLA+ MapVertices law with a tagging point function, and contracts on integer observations for the numeric projections; TLC checks the law on the bounded shape set and validates traces of project.* and mvt ProjectToWGS84/ProjectToTile",
+    level_text="TLC checks on the 534-shape bounded set that MapVertices preserves kind and nesting and numbers the visited vertices 1..n in order. Seeded shapes of every kind (nested collections, bounds) are projected by project.Geometry and the typed helpers with a tagging function (k-th call returns <1000-x, k>: it reverses an axis); TLC requires the image to be exactly MapVertices of the input and the number of calls to be the number of vertices (a bound: the box of its two projected corners). Integer tile coordinates in [-extent, 2*extent) incl. all four borders, for random tiles at zooms 0..22, power-of-two and other extents, single layers and Layers values mixing extents, are projected to WGS84 and back: TLC requires the same integers. Lon/lat <-> mercator residuals on a grid and seeded points must stay under 1e-9 degree and 1 mm; anchors (180 deg = 20037508 m, clamps) must match.",
+    level_note="exp / atan / log cannot be specified in TLA+: for the two real-valued inverses TLC only judges a recorded residual against the tolerance (a contract on the code's own output, not an independent oracle). Tile rows outside the mercator square (beyond the poles) are clamped by design and excluded. Trusted: TLC, Json module, integer rounding of observations.",
+    rule="one event = one projected shape (in/out trees, call count), one layer's tile coordinates before/after the round trip, one residual observation or one anchor; all events non-trivial; distinct = distinct event text",
+    assumptions=["tile coordinates are exact integers in float64"],
+    trusted_base=["TLC 2026.09.04", "CommunityModules Json/IOUtils"],
+)
